@@ -92,7 +92,11 @@ RULE = ("masks: every u8 and i8 mask for both iterators (thorough: also every u1
         "the pivot value, all-equal, decreasing, last arrangement with repeats; prefixes of iter_permutations on 9..30 elements "
         "and take(k) around the full length; iter_permutations through the Iterator protocol and with a second iterator polled "
         "in turn; element types u8, String, (i32, i32), a struct ordered by its key only (same objects afterwards), (), a "
-        "clone/drop-counting type (nothing leaked or dropped twice), arrays and boxed slices; sub-slices &mut v[a..b] (outside "
+        "clone/drop-counting type (nothing leaked or dropped twice), arrays and boxed slices; iter_permutations (full listing, "
+        "listing through the Iterator protocol, prefixes take(k) on 7..14 elements) on records ordered by their key only and on "
+        "case-insensitive strings where equal elements carry distinct payloads / spellings: every yielded vector must be a "
+        "rearrangement of the input objects (payload multiset preserved, payload still attached to its key: objects are moved "
+        "or cloned whole, never rebuilt from an equal representative); sub-slices &mut v[a..b] (outside "
         "untouched, larger element right behind the range); "
         "neighbours: every grid up to 6x6 and 8x8 (thorough up to 9x9) and every cell for the three iterators, borders of 9x9, "
         "7x9, 16x16, 0-sized and 1xk grids, cells just outside, sizes 255..257, 65535..65537, 2^31-1, 2^31, 2^32, 2^32+1, 2^62, "
@@ -106,7 +110,8 @@ TRUSTED = ["executor harness/crates/c15 (calls rlib_iter::{iter_submasks, iter_s
            "observation when something disagrees; other element types are mapped from/to i64 by order-preserving bijections)",
            "checks/c15.py (case generator, Coq term printer incl. the run-length and bit-position encodings of long outputs)"]
 ASSUMPTIONS = ["a w-bit integer is modelled by its bit pattern (an N below 2^w); isize/usize are 64 bits wide",
-               "Vec<T: Ord> / &mut [T] is modelled as list Z (sampled element types: i64, u8, String, (i32, i32), keyed struct, (), "
+               "Vec<T: Ord> / &mut [T] is modelled as list Z (sampled element types: i64, u8, String, (i32, i32), keyed struct, "
+               "case-insensitive string, (), "
                "a drop-counting type; Vec, sub-slice, array, boxed slice)",
                "usize -> isize casts in the neighbour iterators are the identity (grid sizes and coordinates below 2^63)",
                "calls of next() after the first None are not specified and not made",
@@ -163,7 +168,9 @@ def harness_line(c):
     if op == "ipm":
         return " ".join([op, str(n_arrangements(c["d"]) + 1), str(c["k"])] + [str(v) for v in c["d"]])
     if op == "ipg":
-        return " ".join([op, c["kind"], str(n_arrangements(c["d"]) + 1)] + [str(v) for v in c["d"]])
+        # with "k": a prefix take(k) (fed to the constructor of `ipp`)
+        lim = c["k"] if "k" in c else n_arrangements(c["d"]) + 1
+        return " ".join([op, c["kind"], str(lim)] + [str(v) for v in c["d"]])
     if op == "ipzip":
         lim = max(n_arrangements(c["d"]), n_arrangements(c["d2"])) + 1
         return " ".join([op, str(lim), str(len(c["d"]))] + [str(v) for v in c["d"] + c["d2"]])
@@ -267,7 +274,7 @@ def coq_term(c, obs, profile):
         return "(%s %d %d %s)" % ("CSub" if mk == "sub" else "CSup", w, c["x"], out)
     if op in NEXT_OPS:
         return "(CNext %s %s %s)" % (zl_long(next_input(c)), "true" if t[1] == "1" else "false", zl_long(t[2:]))
-    if op == "ipp":
+    if op == "ipp" or (op == "ipg" and "k" in c):
         return "(CIterPre %s %d [%s])" % (zl(c["d"]), c["k"], ";".join(zl(it) for it in parse_ip(t[1:])))
     if op in ITER_FULL:
         return "(CIter %s [%s])" % (zl(c["d"]), ";".join(zl(it) for it in parse_ip(t[1:])))
@@ -308,7 +315,8 @@ def classify(c, obs):
         d = next_input(c) if op in NEXT_OPS else c["d"]
         n = len(d)
         size = "len%d" % n if n <= 9 else ("len10-99" if n < 100 else ("len100-999" if n < 1000 else "len1000+"))
-        return "%s%s/%s/%s" % (op, "-" + c["kind"] if "kind" in c else "", size, "dup" if len(set(d)) < n else "distinct")
+        kind = ("-" + c["kind"] if "kind" in c else "") + ("-take" if op == "ipg" and "k" in c else "")
+        return "%s%s/%s/%s" % (op, kind, size, "dup" if len(set(d)) < n else "distinct")
     return "%s/%s" % (op, "interior" if 0 < c["i"] < c["n"] - 1 and 0 < c["j"] < c["m"] - 1 else "border")
 
 
@@ -639,6 +647,22 @@ def gen_perms_types(rng, tier):
     for kind in ("u8", "str", "tup", "drop"):
         for _ in range(4 if quick else 60):
             cases.append({"op": "ipg", "kind": kind, "d": typed_values(rng, kind, rng.range(0, 5))})
+    # element types whose Ord / == ignores a part of the value (records ordered by a key, case-insensitive strings), equal
+    # elements that differ in that part: every yielded vector must hold the input objects (checked in the executor)
+    for kind in ("key", "keym", "ci"):
+        for r in range(6 if quick else 80):
+            n = rng.range(2, 5 if quick else 6)
+            d = [rng.choice([0, 1, 2, 9, 100]) for _ in range(n)]
+            if r % 3 != 2:
+                d[rng.range(1, n - 1)] = d[0]                 # at least two equal elements
+            cases.append({"op": "ipg", "kind": kind, "d": d})
+        for r in range(2 if quick else 20):
+            n = rng.range(7, 14)
+            d = [rng.choice([0, 1, 2, 3, 9]) for _ in range(n)]
+            if r % 2 == 0:
+                d.sort(reverse=True)
+            total = n_arrangements(d)
+            cases.append({"op": "ipg", "kind": kind, "d": d, "k": min(rng.choice([1, 2, 7, 40]), total + 1)})
     for r in range(30 if quick else 500):
         n = rng.range(0, 12)
         d = [rng.choice([0, 1, 2, 3, 9]) for _ in range(n)]
@@ -765,7 +789,12 @@ def shrink(c):
                 a, b = c["a"], c["b"]
                 out.append(dict(c, d=d[:k] + d[k + 1:], a=a - (1 if k < a else 0), b=b - (1 if k < b else 0)))
             return out
-        if op in ("npg", "ipm", "ipzip", "ipg") and not (op == "npg" and c["kind"] == "unit"):
+        if op == "ipg" and "k" in c:
+            out.append({"op": "ipp", "d": d, "k": c["k"]})                   # the plain prefix on Vec<i64>
+            for k2 in sorted({c["k"] // 2, c["k"] - 1}):
+                if 1 <= k2 < c["k"]:
+                    out.append(dict(c, k=k2))
+        elif op in ("npg", "ipm", "ipzip", "ipg") and not (op == "npg" and c["kind"] == "unit"):
             out.append({"op": "np" if op == "npg" else "ip", "d": d})        # the plain op on Vec<i64>
         if op == "ipp":
             for k2 in sorted({c["k"] // 2, c["k"] - 1}):
